@@ -95,6 +95,9 @@ func (m *Message) Marshal(psh []byte) ([]byte, error) {
 	}
 	b := []byte{mtype, byte(m.Code), 0, 0}
 	proto := m.Type.Protocol()
+	if proto != iana.ProtocolIPv6ICMP {
+		psh = nil // the pseudo header is for ICMPv6 only
+	}
 	if proto == iana.ProtocolIPv6ICMP && psh != nil {
 		b = append(psh, b...)
 	}
